@@ -30,6 +30,11 @@ fn run(kind: &str, m: usize, items: &[u64], mode: &str, twice: bool) -> Result<O
                 let mut s = $T::<f64, u64, FnvHasher>::new(m, BuildHasherDefault::<FnvHasher>::default());
                 if mode == "slice" {
                     if s.sketch_slice(&items).is_err() { return None; }
+                } else if mode == "emptytail" {
+                    // the stream is fed item by item and closed with sketch_slice on an empty last chunk
+                    for x in &items { s.sketch(x); }
+                    let empty: Vec<u64> = Vec::new();
+                    if s.sketch_slice(&empty).is_err() { return None; }
                 } else if let Some(split) = mode.strip_prefix("resume:") {
                     // finish, go on streaming into the same sketch, finish again
                     let split: usize = split.parse().unwrap();
@@ -68,6 +73,11 @@ fn check(kind: &str, m: usize, items: &[u64]) -> Option<(String, String)> {
     match run(kind, m, items, "itemwise", true) {
         Ok(Some(c)) if c == a => {}
         other => return Some((format!("second end_sketch changed the sketch: {:?}", other.map(|o| o.map(|v| v.u64v))), format!("{:?}", a.u64v))),
+    }
+    // item-wise streaming closed by sketch_slice(&[]) == item-wise streaming closed by end_sketch
+    match run(kind, m, items, "emptytail", false) {
+        Ok(Some(c)) if c == a => {}
+        other => return Some((format!("items streamed one by one, then sketch_slice(&[]): {:?}", other.map(|o| o.map(|v| v.u64v))), format!("the finished sketch {:?}", a.u64v))),
     }
     // finishing, streaming on and finishing again: returns, is stable under one more finish, holds only hashes of streamed items
     let hashes0: Vec<u64> = items.iter().map(|x| { use std::hash::BuildHasher; BuildHasherDefault::<FnvHasher>::default().hash_one(&x) }).collect();
